@@ -90,7 +90,8 @@ CodecFails(l0, e) ==
          ELSE <<>>) \o
         One(e.buf_after = e.buf, l0, "C16", <<e.fn, "decoder modified the caller's buffer">>, sig("input-modified")) \o
         (IF ~e.err /\ ~reject
-         THEN One(~e.err2 /\ e.out2 = e.out, l0, "C16", <<e.fn, "decoding the same buffer twice gives different results">>, sig("input-modified"))
+         THEN One(~e.err2 /\ e.out2 = e.out, l0, "C16", <<e.fn, "decoding the same buffer twice gives different results">>, sig("input-modified")) \o
+              One(~e.err3 /\ e.out3 = NMod(v32, WR), l0, "C16", <<e.fn, "decoding into a receiver that already held a value gives something else than the integer value mod r", e.val>>, sig("receiver-state"))
          ELSE <<>>)
   ELSE IF e.fn \in {"Bytes", "BytesLE"} THEN
     LET want == IF e.fn = "Bytes" THEN NToBytesBE(e.x, 32) ELSE NToBytesLE(e.x, 32)
